@@ -127,6 +127,13 @@ claim('C16', 'exhaustive finite decision tables of the attribute routing (2^6 at
       'Axis slicing/take/cast/union keep axis metadata. The semantics of dict.update is trusted.',
       'Assumes dict.update semantics and that hasattr(cls, name) defines class membership.', 'DESIGN.md §3 C16')
 
+claim('C17', 'provenance / index-kind rules (single-exit, one axis token, POSITION kind), affine normal form and comparator of the dropna threshold, option plumbing',
+      'Decides structural clauses of C17: every exit of sort_axis applies the argsort of the labels of the resolved axis (or of key(label)) positionally along that axis; '
+      'compress_axis / take_axis select values and labels with the same index along one resolution; dropna counts NaNs along the grouped axis k, reads the slice size from '
+      'the same k, keeps count <= size - minvalid, recognises the default by `is None`, and uses the negated NaN mask for 1-D arrays; fillna / setna put the right mask and '
+      'replacement with cast=True and inplace=False by default; _matches is total. Which labels survive for a given NaN pattern is not decided.',
+      'Assumes ndarray.argsort / compress / take semantics.', 'DESIGN.md §3 C17')
+
 UNDER_CONSTRUCTION = 'checker under construction in this session (claimed in DESIGN.md, not yet registered)'
 for pid in ['C01', 'C03', 'C04', 'C05', 'C06', 'C07', 'C08', 'C09', 'C10', 'C11', 'C12', 'C13', 'C14', 'C15', 'C16',
             'C17', 'C18', 'C19']:
